@@ -324,7 +324,7 @@ def u_load_relay_rules(ctx, index):
   ctx.cover('loadRelayRules/ends')
   if raised is not None:
     ctx.cover('loadRelayRules/aborts')
-    ctx.check('C16/loadRelayRules/aborts_only_with_config_errors',
+    ctx.check('aux/loadRelayRules/aborts_only_with_config_errors',
               z3.BoolVal(raised.cls_name in ('CarbonConfigException', 'ValueError', 're.error', 'Exception')))
     return
   ctx.cover('loadRelayRules/returns')
